@@ -177,6 +177,7 @@ let () =
         | ["setcounter"; c; k] -> do_op (OSetCounter (n_of_string c, n_of_string k)) noenv
         | ["reopen"] -> do_op OReopen noenv
         | ["dump"; c; ids] -> do_op (ODump (n_of_string c, ids_of_string ids)) noenv
+        | "race" :: _ -> print_endline "race"   (* free-running overlap: judged by the oracle alone *)
         | "txn" :: c :: calls ->
           (* txn CLIENT call...   (storage-trait rig, L0.run_txn) *)
           let parse (t : string) : call =
